@@ -34,7 +34,7 @@ CONSTANTS Keys,          \* 1..N
           Clamp          \* TRUE: levelTargets keeps the base level at or above the first non-empty
                          \*       level (the repaired code); FALSE: the code before that repair
 
-VARIABLES tabs,      \* set of [id, lvl, lo, hi, mv, w]   (w: size of the table)
+VARIABLES tabs,      \* set of [id, lvl, lo, hi, mv, sv, w]   (mv: max version, sv: version of the smallest key, w: size)
           l0,        \* ids of the L0 tables, oldest first (levelHandler.tables of level 0)
           ranges,    \* compactStatus.levels[l].ranges : level -> sequence of ranges
           busy,      \* compactStatus.tables
@@ -176,7 +176,7 @@ RemoveOne(s, r) == LET idx == {i \in DOMAIN s : s[i] = r} IN
                    [k \in 1..Cardinality(keep) |-> s[CHOOSE i \in keep : Cardinality({m \in keep : m < i}) = k - 1]]
 
 \* replaceTables re-sorts level 0 by smallest key (then newest first): see LSM.tla
-L0Before(a, b) == \/ a.lo < b.lo \/ (a.lo = b.lo /\ a.mv > b.mv) \/ (a.lo = b.lo /\ a.mv = b.mv /\ a.id < b.id)
+L0Before(a, b) == \/ a.lo < b.lo \/ (a.lo = b.lo /\ a.sv > b.sv) \/ (a.lo = b.lo /\ a.sv = b.sv /\ a.id < b.id)
 RECURSIVE SortL0(_)
 SortL0(S) == IF S = {} THEN <<>>
              ELSE LET m == CHOOSE x \in S : \A y \in S : y # x => L0Before(x, y) IN <<m.id>> \o SortL0(S \ {m})
@@ -203,14 +203,15 @@ Finish(c) ==
     /\ LET j == job[c]
            ins == {t \in tabs : t.id \in j.top \cup j.bot}
            out(w) == [id |-> nextId, lvl |-> j.next, lo |-> Min({t.lo : t \in ins}), hi |-> Max({t.hi : t \in ins}),
-                      mv |-> Max({t.mv : t \in ins}), w |-> w]
+                      mv |-> Max({t.mv : t \in ins}),
+                      sv |-> Max({t.sv : t \in {u \in ins : u.lo = Min({x.lo : x \in ins})}}), w |-> w]
        IN \E w \in {SumW(ins)} \cup (IF Drops THEN {0, 1} ELSE {}) :
               Install(c, IF w = 0 THEN {} ELSE {out(w)})
     /\ nextId' = nextId + 1
 
 Flush(lo, hi) ==
     /\ nextId <= MaxId /\ lo <= hi
-    /\ tabs' = tabs \cup {[id |-> nextId, lvl |-> 0, lo |-> lo, hi |-> hi, mv |-> nextMv, w |-> 1]}
+    /\ tabs' = tabs \cup {[id |-> nextId, lvl |-> 0, lo |-> lo, hi |-> hi, mv |-> nextMv, sv |-> nextMv, w |-> 1]}
     /\ l0' = Append(l0, nextId)
     /\ nextId' = nextId + 1 /\ nextMv' = nextMv + 1
     /\ UNCHANGED <<ranges, busy, prio, job>>
